@@ -740,6 +740,9 @@ func corpus() []hist {
 		{"held-second-watcher", []action{an(0), an(1), create(0), create(1), report(0, true, true), report(1, true, true), start, startHeld, lapse(0), stop(0), lapse(1), release(1)}},
 		// a failing SetNode is logged and not retried: the workloads stay up until another activation
 		{"handler-fails", []action{an(0), an(1), create(0), create(1), report(0, true, true), report(1, true, true), start, lapseFail(0), lapse(1), hb(0), lapse(0)}},
+		// a workload that never reported a status is marked too; a heartbeat coming back is ignored
+		// (the agent's reports stand), a second lapse marks again
+		{"unreported-and-returning-agent", []action{an(0), start, create(0), create(0), report(0, true, true), lapse(0), report(0, true, true), hb(0), report(1, true, false), lapseRevoke(0)}},
 		{"handover", []action{an(0), an(1), an(2), create(0), create(1), create(2), report(0, true, true), report(1, true, true), report(2, true, true), start, start, lapse(1), stop(0), lapse(2), lapse(0)}},
 	}
 }
@@ -902,6 +905,6 @@ func TestC28(t *testing.T) {
 	if dropped*4 > len(hs) {
 		thin = fmt.Sprintf("THIN COVERAGE: %d of %d histories dropped because the machine was too loaded (timers > 400 ms late); ", dropped, len(hs))
 	}
-	r.Finish(thin + "corpus (7 histories incl. the start-window witness, lock expiry, hand-over to a held watcher, an injected SetNode failure) then random histories of 7-12 steps over 3 nodes, <=6 workloads, <=2 watchers " +
+	r.Finish(thin + "corpus (8 histories incl. the start-window witness, lock expiry, hand-over to a held watcher, an injected SetNode failure) then random histories of 7-12 steps over 3 nodes, <=6 workloads, <=2 watchers " +
 		"(create | report | heartbeat | lapse by delete or lease revoke, 1 in 8 with the handler's SetNode failing | start | start held | release | expire | stop); non-trivial = some workload ends reported down")
 }
